@@ -978,9 +978,46 @@ pub struct Cl<T> {
     reads: u64,
     limit: u64,
 }
+thread_local! {
+    /// words a case may legitimately fetch beyond the data of a zero-extended backend, on top of the fixed
+    /// allowance of the fuse (set by the check that knows the history, reset when it is done)
+    pub static FUSE_EXTRA: std::cell::Cell<u64> = const { std::cell::Cell::new(0) };
+}
+
+/// Sets the extra allowance of the runaway fuse for the current thread until dropped.
+pub struct FuseAllowance(u64);
+impl FuseAllowance {
+    /// `bits` = an upper bound of the bits the history asks the reader for
+    pub fn for_bits(bits: u64) -> Self {
+        let prev = FUSE_EXTRA.with(|f| f.replace(bits / 8 + 64));
+        FuseAllowance(prev)
+    }
+}
+impl Drop for FuseAllowance {
+    fn drop(&mut self) {
+        FUSE_EXTRA.with(|f| f.set(self.0));
+    }
+}
+
+/// An upper bound of the bits a reader history requests.
+pub fn rops_bits(ops: &[crate::ops::ROp]) -> u64 {
+    use crate::ops::ROp;
+    ops.iter()
+        .map(|op| match op {
+            ROp::Bits(n) => *n as u64,
+            ROp::Skip(n) => *n as u64,
+            ROp::Peek(n) => *n as u64,
+            ROp::IoRead(n) => 8 * *n as u64,
+            ROp::Fork(sub) => rops_bits(sub),
+            ROp::Seek(_) | ROp::Pos => 0,
+            _ => 1400,
+        })
+        .sum()
+}
+
 impl<T> Cl<T> {
     pub fn new(inner: T, data_words: usize) -> Self {
-        Cl { inner, reads: 0, limit: data_words as u64 + 4096 }
+        Cl { inner, reads: 0, limit: data_words as u64 + 4096 + FUSE_EXTRA.with(|f| f.get()) }
     }
 }
 impl<T: MaybeClone> Clone for Cl<T> {
@@ -997,7 +1034,7 @@ impl<T: WordRead> WordRead for Cl<T> {
         if self.reads > self.limit {
             // a zero-extending backend never ends: a reader whose state has diverged (e.g. a unary
             // read that sees only zeros) would loop forever. Turn the hang into a reportable panic.
-            panic!("runaway: the reader fetched more than 4096 words beyond the data without a seek");
+            panic!("runaway: the reader fetched more than 4096 words beyond the data (and beyond what the history asks for) without a seek");
         }
         self.inner.read_word()
     }
